@@ -168,6 +168,12 @@ class DbQuery(object):
         q = args[0]
         P = I.path
         exc = importlib.import_module("sqlalchemy.orm.exc")
+        for cnd in q.fields.get('conds', []):
+            if isinstance(cnd, Obj) and cnd.cls is SqlCond and cnd.fields.get('op') == 'Eq' and \
+                    (cnd.fields.get('right') is None or cnd.fields.get('left') is None):
+                # `column == NULL` never matches a row (identifiers are a non-null primary key)
+                P.event('db.one', 'none')
+                raise _pyvc().Raised(ExcVal(exc.NoResultFound, ("No row was found",)))
         k = P.choose(3, "query.one")
         if k == 1:
             P.event('db.one', 'none')
